@@ -8,6 +8,7 @@ import (
 
 	"verif/harness/internal/arith"
 	"verif/harness/internal/chain"
+	"verif/harness/internal/codecfam"
 	"verif/harness/internal/common"
 	"verif/harness/internal/kv"
 	"verif/harness/internal/rm"
@@ -21,6 +22,8 @@ func family(name string, profile string) common.Family {
 		return chain.New(profile)
 	case "rm":
 		return rm.New(profile)
+	case "codec":
+		return codecfam.New(profile)
 	case "kv":
 		return kv.New(profile)
 	}
